@@ -135,6 +135,12 @@ func runC13(env *core.Env) {
 		}
 		add(fmt.Sprintf("reader||%s/list--all/S_big", wcmd.Name), f.SBig, bound, core.R("", "--json", "list", "--all"), req)
 	}
+	// a torn tail: the next appender repairs it by rewriting the log; compact and plan rewrite it too
+	torn := tornVariants(f.SA)[0]
+	for _, wi := range []int{0, 3, 6, 12, 14} { // new task, set{state}, claim, plan, compact
+		add(fmt.Sprintf("reader||%s/list--all/S_A-torn-tail", alpha[wi].Name), torn, bound, core.R("", "--json", "list", "--all"), alpha[wi].Mk(f, 1))
+		add(fmt.Sprintf("reader||%s/show-T1/S_A-torn-tail", alpha[wi].Name), torn, bound, core.R("", "--json", "show", f.T1), alpha[wi].Mk(f, 1))
+	}
 	add("reader||new-task||claim/list--all/S_A", f.SA, 2, core.R("", "--json", "list", "--all"), alpha[0].Mk(f, 1), claimReq("a2"))
 	add("reader||compact||new-task/list--all/S_A", f.SA, 2, core.R("", "--json", "list", "--all"), alpha[14].Mk(f, 1), alpha[0].Mk(f, 2))
 	exploreMany(env, st, "C13", jobs, 4)
